@@ -12,7 +12,7 @@ from dst.storage.simfile import Budget, IoSeam, ReadBudgetExceeded
 
 ID = "C09"
 LEVEL = "exploration"
-RUNS = {"quick": 6000, "thorough": 80000}
+RUNS = {"quick": 6000, "thorough": 400000}
 CHUNK = {"quick": 50, "thorough": 200}
 PROBES = ["unaligned_read_then_observe", "read_at_eof", "read_past_eof", "read0", "read_all", "seek_set", "seek_cur",
           "seek_end", "len_mod4_nonzero", "len_lt_16", "detect_marker_and_size", "detect_size_only",
